@@ -127,8 +127,12 @@ CORPUS = [
 SBML_TOKENS = ["x", "y", "t", "2", "3.5", "1e3", "+", "-", "*", "/", "%", "^", "(", ")", ",", "<", ">", "<=", ">=", "==", "!=",
                "&&", "||", "!", "pow", "sin", "exp", "ln", "log", "log10", "root", "sqrt", "piecewise", "true", "false", "pi",
                "exponentiale", "avogadro", "time", "inf", "nan", "and", "or", "not", "eq", "lt", "abs", "factorial", "f",
-               " ", " ", "&", "|", "=", "#", "\x00", "\xe9"]
+               " ", " ", "&", "|", "=", "#", "\x00", "\xe9",
+               # SBML looks constants and functions up case-insensitively: the same spelling in different case in one history
+               "X", "Y", "T", "S", "s", "Km", "km", "Vmax", "vmax", "Pi", "PI", "Sin", "TIME", "Time", "F", "True", "Inf"]
 SBML_CORPUS = [
+    [b"k1*S/(Km + S)", b"Vmax*S1*(", b"K1*s - 2", b"km + 1", b"piecewise(s, s > 1, vmax)", b"k1*S/(Km + S)"],
+    [b"S + s", b"s + S", b"Pi + pi + PI", b"X*x", b"TIME + time + Time"],
     [b"!x", b"x && y", b"x || y", b"x"],
     [b"(x<y) && (y<z)", b"!(x<y)", b"x^y^z", b"x % y", b"pow(x,2)", b"f()", b"f(", b"", b"x y", b"x"],
     [b"piecewise(x, x<1, y)", b"piecewise(x, y, z)", b"piecewise()", b"log(2,x)", b"root(2,x)", b"and(x<y, y<z)",
